@@ -28,6 +28,7 @@ CONSTANTS
   FailSaves = TRUE
   Focus = TRUE
   Record = TRUE
+  Scrapes = FALSE
   Marking = FALSE
   WindAt = 34
   Gaps = {}
